@@ -439,6 +439,14 @@ impl Exec {
             let (id, expiry, soft_deleted) = store[k];
             if entry.id == 0 || !accounting_ok { entry.id = id; }
             if entry.id != id { field_failure = Some(Failure::new(blame, &tag("entry-replaced"), format!("key {} is held under id {} but the model saw it created under id {}", k, id, entry.id))); break; }
+            if entry.explicit_weight_pending {
+                entry.explicit_weight_pending = false;
+                let charged = weights.get(&id).map(|(_, weight)| *weight);
+                if charged != Some(entry.weight) {
+                    field_failure = Some(Failure::new("C08", "C08/explicit-weight-not-charged", format!("put_or_update of key {} with the explicit weight {} was acknowledged Accepted, but the key is charged {:?}", k, entry.weight, charged)));
+                    break;
+                }
+            }
             if let Some((_, weight)) = weights.get(&id).copied() {
                 if adopt.contains(k) {
                     // weight chosen by the implementation (no explicit weight requested): must be positive, then adopted
@@ -905,9 +913,14 @@ impl Exec {
                         let got = self.call("get", |cache| cache.get(&key))?;
                         let readable_now = self.model.readable(k);
                         if got.is_some() { self.model.stats.hits += 1; } else { self.model.stats.misses += 1; }
-                        if value.is_some() && !readable_now {
-                            ensure!(got.is_some(), "C08", if entry.soft_deleted { "C08/upsert/soft-deleted" } else { "C08/upsert/expired-unswept/no-ttl-change" },
-                                "{} on a key that reads as absent ({}) was acknowledged {:?} but get({}) = None: the upsert is lost", what, if entry.soft_deleted { "deleted, delete not yet acknowledged" } else { "past its time-to-live, not yet swept" }, status, k);
+                        if value.is_some() && !readable_now && got.is_none() {
+                            // known finding F7 of C08; campaigns of other properties note it and carry on
+                            self.soft(Failure::new("C08", if entry.soft_deleted { "C08/upsert/soft-deleted" } else { "C08/upsert/expired-unswept/no-ttl-change" },
+                                format!("{} on a key that reads as absent ({}) was acknowledged {:?} but get({}) = None: the upsert is lost", what, if entry.soft_deleted { "deleted, delete not yet acknowledged" } else { "past its time-to-live, not yet swept" }, status, k)))?;
+                        }
+                        if readable_now && got != Some(expected_value) {
+                            // the upsert gave the dead entry a new deadline: it is readable again and must show the new state
+                            return Err(Failure::new("C08", "C08/in-place/value", format!("after {} get({}) = {:x?}, expected {:x?}", what, k, got, Some(expected_value))));
                         }
                     }
                 }
